@@ -72,7 +72,7 @@ OPEN_VALUES = [None, ["x", "y"], float("nan"), True, False]     # booleans: a RE
 
 
 def tier_runs(tier):
-    return 1600 if tier == "quick" else 40000
+    return 2400 if tier == "quick" else 40000
 
 
 def tier_budget_s(tier):
